@@ -118,7 +118,16 @@ def explore_position(task):
 # ------------------------------------------------------------------------------------------------ torus relations
 def explore_torus(task):
     lengths, per_side, layers = task
-    cells = make_cells(lengths, per_side, layers)
+    try:
+        cells = make_cells(lengths, per_side, layers)
+    except Exception as exc:  # noqa -- the real constructor fails on an admissible grid: a concrete counterexample
+        setting.reset()
+        q = solve.Query("torus/L%s/n%s/k%d/cell-system-can-be-constructed(%s)"
+                        % ("x".join(str(v) for v in lengths), "x".join(str(v) for v in per_side), layers,
+                           type(exc).__name__), solve.to_smt2([z3.BoolVal(True)]), expect="unsat", timeout_s=10,
+                        info={"lengths": list(lengths), "per_side": list(per_side), "layers": layers,
+                              "replay": "torus_ctor", "exception": repr(exc)}, group="torus/construction")
+        return {"paths": 1, "queries": [q], "part": "torus"}
     dim = len(lengths)
     all_cells = list(cells.yield_cells())
     by_ident = {c.identifier: c for c in all_cells}
@@ -228,6 +237,21 @@ def replay_position(model, q):
         setting.reset()
 
 
+def replay_torus_ctor(model, q):
+    info = q.info
+    try:
+        make_cells(info["lengths"], info["per_side"], info["layers"])
+    except Exception as exc:  # noqa
+        return {"reproduced": True,
+                "what": "CuboidPeriodicCells(cells_per_side=%s, neighbor_layers=%d) in a box %s raises %r"
+                        % (info["per_side"], info["layers"], info["lengths"], exc),
+                "data": {"kind": "torus_ctor", "lengths": info["lengths"], "per_side": info["per_side"],
+                         "layers": info["layers"]}}
+    finally:
+        setting.reset()
+    return {"reproduced": False, "what": "the cell system is constructed natively"}
+
+
 def replay_torus(model, q):
     info = q.info
     lengths, per_side, layers = info["lengths"], info["per_side"], info["layers"]
@@ -307,6 +331,7 @@ def main():
                       "symbolic position in several axes at once")
     chk.register_replay("position", replay_position)
     chk.register_replay("torus", replay_torus)
+    chk.register_replay("torus_ctor", replay_torus_ctor)
     translator_validation(chk)
     known_top = chk.is_known(KNOWN_TOP)
     if chk.want("position"):
